@@ -26,12 +26,14 @@ def positional_names(sig, n_args):
   return names[:n_args]
 
 
-def expected_call(sig, args, kwargs, applicable):
+def expected_call(sig, args, kwargs, applicable, supplied=None):
   """What the function body must see, or TypeError if Python itself cannot bind the call.
 
   Returns ('ok', {'named': {...}, 'args': [...], 'kw': {...}}) or ('TypeError', message).
+  `supplied`: names of the parameters the positional arguments are known to fill (default: read
+  off `sig`; a (*args, **kwargs) wrapper around the function hides them from Gin -> pass []).
   """
-  supplied = set(positional_names(sig, len(args)))
+  supplied = set(positional_names(sig, len(args)) if supplied is None else supplied)
   merged = {p: v for p, v in applicable.items() if p not in supplied}
   merged.update(kwargs)
   try:
